@@ -9,8 +9,16 @@ Open Scope N_scope.
 
 Record DirObsT := DirObs { do_main : Z; do_temps : list Z }.
 
+(* one event of a history: state number [he_idx] saved with [he_mode] (0 Save in-process, 1 Save
+   killed inside the hook, 2 Save with a failing hook); [he_save]: 0 Save returned nil, 1 an
+   error, 3 the process died; [he_fresh]: the temp name Save used was not present before;
+   then what Load returns and what the directory holds (codes = state numbers) *)
+Record HEvent := HEv { he_mode : N; he_idx : N; he_save : N; he_fresh : bool;
+                       he_loaded : Z; he_main : Z; he_temps : list Z }.
+
 Inductive c19_case :=
-| KillCase (n done : N) (loaded : Z) (temps : list Z)
+| HistCase (events : list HEvent)
+| KillCase (n done : N) (loaded : Z) (temps : list Z) (resave_ok : bool)
 | HookCase (variant : N) (has_old : bool) (at_hook after : DirObsT) (outcome : N) (loaded : Z)
 | CorruptCase (size variants rejected same diff : N) (orig_ok : bool)
 | TamperCase (n rejected accepted : N).
@@ -32,9 +40,21 @@ Definition hook_ok (variant : N) (has_old : bool) (loaded : Z) : bool :=
   if variant =? 0 then Z.eqb loaded 1 (* Save returned nil: the new state *)
   else Z.eqb loaded old.              (* Save failed / died before the rename: the previous state *)
 
+(* a history: a Save that returned nil is what Load returns; a failed or killed Save leaves the
+   previously loadable state or the new one; [cur] = what Load returned before the event *)
+Fixpoint hist_ok (cur : Z) (evs : list HEvent) : bool :=
+  match evs with
+  | [] => true
+  | e :: r =>
+    (if he_save e =? 0 then Z.eqb (he_loaded e) (Z.of_N (he_idx e))
+     else old_or_new_b cur (Z.of_N (he_idx e)) (he_loaded e))
+    && hist_ok (he_loaded e) r
+  end.
+
 Definition C19_monitor (c : c19_case) : N :=
   match c with
-  | KillCase n done loaded _ => if kill_ok n done loaded then 0 else 1
+  | HistCase evs => if hist_ok (-1)%Z evs then 0 else 1
+  | KillCase n done loaded _ resave_ok => if kill_ok n done loaded && resave_ok then 0 else 1
   | HookCase v has_old _ _ _ loaded => if hook_ok v has_old loaded then 0 else 1
   | CorruptCase size variants rejected same diff orig_ok =>
     if (diff =? 0) && orig_ok && (rejected + same + diff =? variants) && ((size =? 0) || (0 <? variants)) then 0 else 1
@@ -69,11 +89,48 @@ Definition model_hook (variant : N) (has_old : bool) : DirObsT * DirObsT * Z :=
       else run s0 (save_ops_hook_fails 1 [1]) in           (* error or panic: the deferred Remove runs *)
   (model_obs at_hook, model_obs after, code_of (load_bytes after)).
 
+(* ---- the model on histories ---- *)
+
+(* the bytes of state number k are [k]; the temp name of event number n is n + 1 (os.CreateTemp
+   returns a name that is not in the directory) *)
+Definition code_gen (o : option bytes) : Z :=
+  match o with
+  | None => (-1)%Z
+  | Some [k] => Z.of_N k
+  | Some _ => (-2)%Z
+  end.
+
+Definition hist_step (s : fs) (n : N) (mode idx : N) : fs :=
+  if mode =? 0 then run s (save_ops (n + 1) [idx])
+  else if mode =? 1 then run s (firstn 4 (save_ops (n + 1) [idx]))    (* the process dies in the hook: what is visible stays *)
+  else run s (save_ops_hook_fails (n + 1) [idx]).
+
+Definition temps_of (s : fs) : list Z :=
+  isort Z.ltb (map (fun p => code_gen (read s (fst p))) (filter (fun p => negb (fst p =? 0)) (f_dir s))).
+
+(* the events the model produces for the (mode, state) sequence *)
+Fixpoint model_hist (s : fs) (n : N) (plan : list (N * N)) : list HEvent :=
+  match plan with
+  | [] => []
+  | (mode, idx) :: r =>
+    let s' := hist_step s n mode idx in
+    HEv mode idx (if mode =? 0 then 0 else if mode =? 1 then 3 else 1) true
+        (code_gen (load_bytes s')) (code_gen (read s' 0)) (temps_of s')
+    :: model_hist s' (n + 1) r
+  end.
+
+Definition HEvent_eqb (a b : HEvent) : bool :=
+  (he_mode a =? he_mode b) && (he_idx a =? he_idx b) && (he_save a =? he_save b)
+  && Bool.eqb (he_fresh a) (he_fresh b) && Z.eqb (he_loaded a) (he_loaded b) && Z.eqb (he_main a) (he_main b)
+  && list_eqb Z.eqb (he_temps a) (he_temps b).
+
 Definition DirObs_eqb (a b : DirObsT) : bool :=
   Z.eqb (do_main a) (do_main b) && list_eqb Z.eqb (do_temps a) (do_temps b).
 
 Definition C19_mismatch (c : c19_case) : bool :=
   match c with
+  | HistCase evs =>
+    negb (list_eqb HEvent_eqb (model_hist (fs_start false) 0 (map (fun e => (he_mode e, he_idx e)) evs)) evs)
   | HookCase v has_old at_hook after outcome loaded =>
     let '(mh, ma, ml) := model_hook v has_old in
     negb (DirObs_eqb mh at_hook && DirObs_eqb ma after && Z.eqb ml loaded && (outcome =? v))
